@@ -3,6 +3,7 @@ package main
 import (
 	"fmt"
 	"io"
+	"os"
 	"sort"
 	"strings"
 	"time"
@@ -55,20 +56,45 @@ func (concEngine) Gen(prop string, seed uint64, tier string) *Spec {
 		spec.Knobs["big"] = int64(rng.Intn(2))
 	}
 	if prop == "C06" {
-		spec.Knobs["cold"] = int64(rng.Intn(2)) // restart before the concurrent phase: cold caches
 		spec.Knobs["recycle"] = 1
-		if rng.Chance(0.5) {
-			// directed preemption: hold one client at its n-th inode-lock acquisition
-			spec.Knobs["direct_task"] = int64(rng.Intn(ncl))
-			spec.Knobs["direct_n"] = int64(rng.Intn(8))
-		}
+	}
+	// restart before the concurrent phase: cold caches, and the allocator hands out low
+	// inode numbers again, so objects created by the clients have smaller numbers than
+	// their parent directories (the abort-and-relock paths)
+	spec.Knobs["cold"] = int64(rng.Intn(2))
+	if rng.Chance(0.4) || (prop == "C06" && rng.Chance(0.3)) {
+		// directed preemption: hold one client at its n-th inode-lock acquisition until
+		// every other client is blocked or done
+		spec.Knobs["direct_task"] = int64(rng.Intn(ncl))
+		spec.Knobs["direct_n"] = int64(rng.Intn(10))
+	}
+	// conflict focus: most operations of a run target one directory and one or two names
+	focusDir := []int{slotRoot, slotD1, slotD1, slotD2, slotSub}[rng.Intn(5)]
+	focusName := concNames[rng.Intn(len(concNames))]
+	focusName2 := concNames[rng.Intn(len(concNames))]
+	focus := rng.Chance(0.7)
+	// a quarter of the runs: every client talks to the real RPC server loop over its own
+	// simulated connection (XDR codec, request-buffer pool, one handler goroutine per request)
+	if prop != "C14" && rng.Chance(0.25) {
+		spec.Knobs["rpc"] = 1
 	}
 	pat := uint64(1)
 	for c := 0; c < ncl; c++ {
 		n := 3 + rng.Intn(maxops-2)
 		var ops []Op
-		dirSlot := func() int { return []int{slotRoot, slotD1, slotD1, slotD2, slotD2, slotSub}[rng.Intn(6)] }
+		dirSlot := func() int {
+			if focus && rng.Chance(0.75) {
+				return focusDir
+			}
+			return []int{slotRoot, slotD1, slotD1, slotD2, slotD2, slotSub}[rng.Intn(6)]
+		}
 		name := func() string {
+			if focus && rng.Chance(0.7) {
+				if rng.Chance(0.6) {
+					return focusName
+				}
+				return focusName2
+			}
 			if rng.Chance(0.04) {
 				return []string{".", ".."}[rng.Intn(2)]
 			}
@@ -161,7 +187,9 @@ func (m *Model) canon() string {
 	var b strings.Builder
 	b.WriteString(m.metaSorted())
 	for _, o := range m.LiveObjs() {
-		fmt.Fprintf(&b, "|%d:%x:%d", o.ID, o.H, o.FileID)
+		// the binding path -> object identity is part of the state (two states with
+		// the same tree shape but swapped objects are different)
+		fmt.Fprintf(&b, "|%s=%x:%d", m.PathOf(o), o.H, o.FileID)
 		if o.Kind == kREG {
 			pgs := make([]uint64, 0, len(o.Pages))
 			for p := range o.Pages {
@@ -219,6 +247,7 @@ type concRun struct {
 	viol  *Violation
 	setup map[int]string
 	inv   int64 // lock-order inversions observed
+	blameDetail string
 }
 
 func (x *concRun) fail(kind, sig, detail string) {
@@ -332,6 +361,10 @@ func (x *concRun) main() {
 		simrt.Go(fmt.Sprintf("client%d", c), func() {
 			defer wg.Done()
 			got := map[int]string{}
+			var conn *Conn
+			if spec.knob("rpc", 0) != 0 {
+				conn = x.rig.Connect()
+			}
 			slot := func(s int) (string, bool) {
 				if s < 0 {
 					h, ok := x.setup[s]
@@ -372,7 +405,15 @@ func (x *concRun) main() {
 				r := &concRec{client: c, in: in}
 				r.call = x.stamp()
 				x.addRec(r)
-				out := x.rig.Call(in)
+				var out *Out
+				if conn != nil {
+					out = conn.CallRPC(in)
+					if out.RPCErr != "" {
+						x.fail("rpc", sigOf("rpc-"+in.K, out.RPCErr), describeIn(in)+": "+out.RPCErr)
+					}
+				} else {
+					out = x.rig.Call(in)
+				}
 				r.ret = x.stamp()
 				r.out = out
 				if out.Status == 0 && out.HasH {
@@ -488,8 +529,9 @@ func (x *concRun) addRec(r *concRec) {
 func (concEngine) Exec(spec *Spec) *Result {
 	res := &Result{}
 	x := &concRun{spec: spec, res: res, d: simdisk.New(spec.Disk)}
-	budget := uint64(4_000_000)
-	sim := simrt.Run(simConfig(spec.Sched, budget), x.main)
+	cfg := simConfig(spec.Sched, 2_000_000)
+	cfg.SecondChance = 2_000_000
+	sim := simrt.Run(cfg, x.main)
 	res.Fingerprint = sim.Fingerprint
 	res.SchedPrint = sim.SchedPrint
 	res.Steps = sim.Stats.Steps
@@ -500,19 +542,10 @@ func (concEngine) Exec(spec *Spec) *Result {
 		res.Viol = x.viol
 		return res
 	}
-	if sim.Outcome != nil && sim.Outcome.Kind == "budget" && spec.Sched.Policy != "rr" {
-		// liveness is demanded once adversarial scheduling stops: second chance
-		// under a fair scheduler
-		res.count("budget_second_chance", 1)
-		s2 := *spec
-		s2.Sched.Policy = "rr"
-		s2.Sched.Starve = nil
-		r2 := concEngine{}.Exec(&s2)
-		if r2.Viol != nil && r2.Viol.Kind == "budget" {
-			r2.Viol.Sig = "livelock"
-			r2.Viol.Detail = "no progress even under a fair scheduler: " + r2.Viol.Detail
-			res.Viol = r2.Viol
-		}
+	res.count("budget_second_chance", int64(sim.Stats.SecondChances))
+	if sim.Outcome != nil && sim.Outcome.Kind == "budget" {
+		res.Viol = &Violation{Property: spec.Property, Kind: "livelock", Sig: "livelock",
+			Detail: "no progress even under a fair scheduler: " + sim.Outcome.Detail + " (task " + sim.Outcome.Task + ", doing " + sim.Outcome.Tag + ")"}
 		return res
 	}
 	if v := outcomeViolation(spec.Property, sim.Outcome, "concurrent run"); v != nil {
@@ -529,8 +562,20 @@ func (concEngine) Exec(spec *Spec) *Result {
 	}
 	switch porcupine.CheckOperationsTimeout(nfsPorcupineModel(x.m), hist, 20*time.Second) {
 	case porcupine.Illegal:
-		res.Viol = &Violation{Property: spec.Property, Kind: "linearizability", Sig: "not-linearizable:" + concBlame(x),
-			Detail: "the history is not linearizable against the reference file system: " + concHistString(x.recs)}
+		// cross-check with an independent brute-force search before reporting: a
+		// disagreement is a fault of the checker, never reported as a violation
+		dbg := linDebug(x.m, x.recs)
+		if os.Getenv("VERIF_LINDEBUG") != "" {
+			fmt.Fprintln(os.Stderr, dbg)
+		}
+		if strings.HasPrefix(dbg, "a linearization exists") {
+			res.Inconcl++
+			res.count("checker_disagreement", 1)
+			return res
+		}
+		sig := "not-linearizable:" + concBlame(x)
+		res.Viol = &Violation{Property: spec.Property, Kind: "linearizability", Sig: sig,
+			Detail: "the history is not linearizable against the reference file system; the shortest illegal prefix (by completion) ends with " + x.blameDetail + "; " + dbg + "; full history: " + concHistString(x.recs)}
 	case porcupine.Unknown:
 		res.Inconcl++
 	default:
@@ -552,6 +597,10 @@ func concBlame(x *concRun) string {
 			hist = append(hist, porcupine.Operation{ClientId: r.client, Input: r.in, Output: r.out, Call: r.call, Return: r.ret})
 		}
 		if porcupine.CheckOperationsTimeout(model, hist, 5*time.Second) == porcupine.Illegal {
+			x.blameDetail = concHistString(recs[n-1 : n])
+			for _, e := range recs[n-1].out.Ents {
+				x.blameDetail += fmt.Sprintf(" {%q id=%d h=%s attr=%v}", e.Name, e.FileID, hname(e.H), e.Attr)
+			}
 			return recs[n-1].in.K
 		}
 	}
@@ -593,4 +642,69 @@ func hname(h string) string {
 		return fmt.Sprintf("%x", h)
 	}
 	return fmt.Sprintf("#%d.%d", uint64(h[0])|uint64(h[1])<<8|uint64(h[2])<<16, uint64(h[8])|uint64(h[9])<<8)
+}
+
+// linDebug searches for a linearization by brute force and reports, for the
+// deepest prefix it could build, why each remaining candidate is refused by
+// the model (diagnostics for non-linearizable histories; VERIF_LINDEBUG=1).
+func linDebug(init *Model, recs []*concRec) string {
+	n := len(recs)
+	used := make([]bool, n)
+	best := -1
+	var bestOrder []int
+	var bestWhy []string
+	var order []int
+	budget := 2_000_000
+	var dfs func(m *Model, k int)
+	dfs = func(m *Model, k int) {
+		if budget <= 0 {
+			return
+		}
+		budget--
+		if k == n {
+			best = n
+			bestOrder = append([]int{}, order...)
+			bestWhy = nil
+			return
+		}
+		// candidates: unused ops whose call precedes every unused op's return
+		minRet := int64(1) << 62
+		for i := 0; i < n; i++ {
+			if !used[i] && recs[i].ret < minRet {
+				minRet = recs[i].ret
+			}
+		}
+		var why []string
+		for i := 0; i < n && best < n; i++ {
+			if used[i] || recs[i].call > minRet {
+				continue
+			}
+			c := m.Clone()
+			if err := c.Step(recs[i].in, recs[i].out); err != nil {
+				why = append(why, fmt.Sprintf("[c%d %s @%d-%d: %v]", recs[i].client, describeIn(recs[i].in), recs[i].call, recs[i].ret, err))
+				continue
+			}
+			used[i] = true
+			order = append(order, i)
+			dfs(c, k+1)
+			order = order[:len(order)-1]
+			used[i] = false
+		}
+		if k > best && best < n {
+			best = k
+			bestOrder = append([]int{}, order...)
+			bestWhy = why
+		}
+	}
+	dfs(init, 0)
+	if best == n {
+		return "a linearization exists (porcupine and the brute-force search disagree)"
+	}
+	var b strings.Builder
+	fmt.Fprintf(&b, "deepest legal prefix has %d of %d operations: ", best, n)
+	for _, i := range bestOrder {
+		fmt.Fprintf(&b, "c%d.%s@%d ", recs[i].client, recs[i].in.K, recs[i].call)
+	}
+	b.WriteString("; then every candidate is refused: " + strings.Join(bestWhy, " "))
+	return b.String()
 }
